@@ -686,11 +686,16 @@ def c07_impl(case):
             steps.append({'created_pulls': created, 'res': res, 'per': per, 'after': len(log),
                           'at_last': at_last})
         out['steps'] = steps
+        while held:
+            held.pop().close()       # closing an abandoned iterator must not raise (an exception here is reported)
     except Exception as e:
         out['exc'] = f'{type(e).__name__}: {e}'
     finally:
         for it_ in held:
-            it_.close()
+            try:
+                it_.close()
+            except Exception:
+                pass
         impl.reset_library_state()
     return out
 
